@@ -8,8 +8,11 @@ Input (one command per line, tokens separated by single spaces):
   <op> <args>*                                           see `parseOp`
 Value token `k/p/b` (key number, payload, kind). Operand token:
   `K|<enforce>|<typed>|v,v,…` another KeyedSet of the same universe, `S|v,v,…` a built-in
-  set in iteration order, `L|v,v,…` a list, `self` the receiver itself.
+  set in iteration order, `F|v,v,…` a frozenset, `L|v,v,…` a list, `self` the receiver itself.
 Output (one line per input line): `<out> ;; <state>`.
+Results of operators are fresh values in the model: `fresh=1` is printed literally (the real side prints
+whether `r is not a and r is not b`), and `probe <refl> <bin> <operand> <x>` prints the result after its own
+mutation, the other operand, the receiver re-read, and the result re-read after the receiver's mutation.
 
 Key codes (`Int`): str "k<n>" ↦ n, int n ↦ 2000+n, str "k" ↦ 3000, str "" ↦ 3001,
 tuple ("notspec", k, p) ↦ 4000+10k+p.
@@ -133,6 +136,7 @@ def parseOperand (st : St) (tok : String) : Option (Except Err (Operand Val Int)
     | .ok t => pure (.ok (.ks t))
     | .error e => pure (.error e)
   | ["S", vs] => do pure (.ok (.pyset (← parseVals vs)))
+  | ["F", vs] => do pure (.ok (.pyfrozen (← parseVals vs)))
   | ["L", vs] => do pure (.ok (.pylist (← parseVals vs)))
   | _ => none
 
@@ -178,6 +182,9 @@ def parseOp (st : St) (ts : List String) : Option (Except Err (Op Val Int)) :=
     let i ← parseIOp i; let o ← parseOperand st o
     pure (o.map (Op.inplace i))
   | ["inplaceSelf", i] => do pure (.ok (.inplaceSelf (← parseIOp i)))
+  | ["probe", refl, b, o, x] => do
+    let b ← parseBin b; let o ← parseOperand st o; let x ← parseVal x
+    pure (o.map (fun o => Op.probe (refl == "1") b o x))
   | _ => none
 
 def showOut : Out Val Int → String
@@ -190,8 +197,23 @@ def showOut : Out Val Int → String
   | .items xs => "items " ++ showVals xs
   | .keys ks => "keys [" ++ ",".intercalate (ks.map toString) ++ "]"
   | .pairs ps => "pairs " ++ showDict ps
-  | .set r => "set " ++ showKS r
+  | .set r => "set fresh=1 " ++ showKS r
+  | .probe r1 mid => "probe fresh=1 r1=" ++ showKS r1 ++ " mid=" ++ showKS mid ++ " r2=" ++ showKS r1
   | .err e => "err " ++ e.name
+
+def showOperand : Operand Val Int → String
+  | .ks t => showDict t.dict
+  | .pyset xs => showVals xs
+  | .pyfrozen xs => showVals xs
+  | .pylist xs => showVals xs
+
+/-- operation-specific decoration: the other operand of a probe is re-read too (a value in the model),
+a rebinding assignment reports that the new set is not one of the operands -/
+def decorate (op : Op Val Int) (o : Out Val Int) (shown : String) : String :=
+  match op, o with
+  | .probe _ _ other _, .probe _ _ => shown ++ " o=" ++ showOperand other
+  | .rebind _ _, .none => "ok fresh=1"
+  | _, _ => shown
 
 def emptyKS (u : Univ) (typed enf : Bool) : KS Val Int := ⟨mkCfg u typed, enf, []⟩
 
@@ -212,7 +234,7 @@ def handle (st : St) (line : String) : St × String :=
     | some (.error e) => (st, "operand-error " ++ e.name ++ " ;; " ++ showKS st.ks)
     | some (.ok op) =>
       let r := step st.ks op
-      ({ st with ks := r.1 }, showOut r.2 ++ " ;; " ++ showKS r.1)
+      ({ st with ks := r.1 }, decorate op r.2 (showOut r.2) ++ " ;; " ++ showKS r.1)
 
 partial def loop (h : IO.FS.Stream) (out : IO.FS.Stream) (st : St) : IO Unit := do
   let line ← h.getLine
